@@ -6,7 +6,7 @@ From Coq Require Import List NArith ZArith Bool Lia.
 From ApiFu Require Import Base.Sexp.
 From ApiFu Require Syn.Ast Syn.ParserModel Syn.FrontEnd Syn.FrontEndProofs.
 From ApiFu Require Vld.Ast Vld.ValidatorModel Vld.ProofsCommon Vld.ProofsTotal Vld.ValidatorProofs.
-From ApiFu Require Exe.ExecData Exe.ExecModel Exe.ExecSpec Exe.ExecHyps Exe.ExecProofs.
+From ApiFu Require Val.Values Val.CoerceSpec Val.CoerceTotal ExeA.ArgData ExeA.ArgArgs ExeA.ArgModel ExeA.ArgSpec ExeA.ArgHyps ExeA.ArgProofs.
 From ApiFu Require Import Pipe.Convert Pipe.Compose Pipe.PositionsProofs.
 Import ListNotations.
 
@@ -54,26 +54,15 @@ Qed.
 
 (** ** the back half *)
 Lemma run_none_has_error M S D E fuel W errs :
-  Exe.ExecModel.run M S D E fuel W = Exe.ExecModel.Done None errs -> errs <> [].
+  ExeA.ArgModel.run M S D E fuel W = ExeA.ArgModel.Done None errs -> errs <> [].
 Proof.
-  unfold Exe.ExecModel.run.
-  destruct (Exe.ExecModel.root_type S (Exe.ExecData.op_kind D)) as [rt|].
-  - destruct (Exe.ExecModel.exec_selections M S D E fuel (Exe.ExecModel.children_of M S D E fuel W) rt
-                (Exe.ExecData.op_sels D) [] Exe.ExecModel.init_state) as [r st].
+  unfold ExeA.ArgModel.run.
+  destruct (ExeA.ArgModel.root_type S (ExeA.ArgData.op_kind D)) as [rt|].
+  - destruct (ExeA.ArgModel.exec_selections M S D E fuel (ExeA.ArgModel.children_of M S D E fuel W) rt
+                (ExeA.ArgData.op_sels D) [] ExeA.ArgModel.init_state) as [r st].
     destruct r; intro H; inversion H; subst.
     intro Hn. apply app_eq_nil in Hn. destruct Hn as [_ Hn]. discriminate.
   - intro H; inversion H. discriminate.
-Qed.
-
-Lemma run_request_refused M S R opname E fuel W :
-  (forall o, Exe.ExecModel.get_operation R opname <> Exe.ExecModel.GOp o) ->
-  exists e, Exe.ExecModel.run_request M S R opname E fuel W = Exe.ExecModel.Done None [e].
-Proof.
-  unfold Exe.ExecModel.run_request. intro H.
-  destruct (Exe.ExecModel.get_operation R opname) as [o|p|].
-  - exfalso. apply (H o). reflexivity.
-  - eexists; reflexivity.
-  - eexists; reflexivity.
 Qed.
 
 Definition crashed (r : presult) : bool :=
@@ -83,110 +72,131 @@ Definition unevaluable (r : presult) : bool :=
 Definition contract_broken (r : presult) : bool :=
   match r with PContractBroken _ => true | _ => false end.
 
+(** the schema hypotheses of the executor stage: no zero byte in a type name (schema.New's name
+    check) and every named type an input type mentions is defined (C05's [env_closed]) *)
+Definition schema_accepted (ES : ExeA.ArgData.schema) : bool :=
+  ExeA.ArgHyps.type_names_okb ES && Val.CoerceSpec.env_closed (ExeA.ArgData.s_inputs ES).
+
+Lemma run_request_not_selected M S R opname raw fuel W :
+  (forall o, ExeA.ArgModel.get_operation R opname <> ExeA.ArgModel.GOp o) ->
+  exists e, ExeA.ArgModel.run_request M S R opname raw fuel W = ExeA.ArgModel.Done None [e].
+Proof.
+  unfold ExeA.ArgModel.run_request. intro H.
+  destruct (ExeA.ArgModel.get_operation R opname) as [o|p|].
+  - exfalso. apply (H o). reflexivity.
+  - eexists; reflexivity.
+  - eexists; reflexivity.
+Qed.
+
 (** every outcome of the executor stage of the composed model *)
-Theorem execute_doc_cases ES d opname VE W :
-  Exe.ExecHyps.type_names_okb ES = true ->
-  let r := execute_doc ES d opname VE W in
+Theorem execute_doc_cases ES d opname raw W :
+  schema_accepted ES = true ->
+  let r := execute_doc ES d opname raw W in
   (exists data errs, r = PExecuted data errs /\
                      (data = None -> errs <> []) /\
-                     (forall j, data = Some j -> Exe.ExecData.json_finite j = true)) \/
-  r = PVarsRejected \/
+                     (forall j, data = Some j -> ExeA.ArgData.json_finite j = true)) \/
   (exists c, r = PContractBroken c) \/
-  (exists x o E, r = PUnevaluable x /\ VE = Some E /\
-                 Exe.ExecModel.get_operation (exe_of_syn d) opname = Exe.ExecModel.GOp o /\
-                 Exe.ExecHyps.dirs_evaluable (Exe.ExecData.doc_of (exe_of_syn d) o) E = false).
+  (exists x o vv, r = PUnevaluable x /\
+                  ExeA.ArgModel.get_operation (exe_of_syn d) opname = ExeA.ArgModel.GOp o /\
+                  ExeA.ArgModel.coerce_request_vars ES o raw = Val.Values.Ok vv /\
+                  ExeA.ArgHyps.dirs_evaluable (ExeA.ArgData.doc_of (exe_of_syn d) o vv) (ExeA.ArgArgs.env_of_vars vv) = false).
 Proof.
-  intros Hn. unfold execute_doc.
-  destruct (Exe.ExecModel.get_operation (exe_of_syn d) opname) as [o|p|] eqn:Hg.
-  - destruct VE as [E|]; [|right; left; reflexivity].
-    set (D := Exe.ExecData.doc_of (exe_of_syn d) o).
-    destruct (Exe.ExecHyps.doc_positions_okb D) eqn:Hp; cbn [negb].
-    2:{ right; right; left. eexists; reflexivity. }
-    destruct (Exe.ExecHyps.dirs_evaluable D E) eqn:He; cbn [negb].
-    2:{ right; right; right. eexists _, o, E. auto. }
-    destruct (Exe.ExecSpec.doc_ok ES D E (Exe.ExecModel.default_fuel D) (Exe.ExecModel.default_fuel D)) eqn:Hd; cbn [negb].
-    2:{ right; right; left. eexists; reflexivity. }
-    destruct (Exe.ExecProofs.exec_total ES D E (Exe.ExecModel.default_fuel D) Hn Hp (Exe.ExecModel.default_fuel D) Hd W)
-      as (data & errs & Hr).
-    left. exists data, errs. rewrite Hr. cbn [of_run]. split; [reflexivity|]. split.
-    + intros ->. eapply run_none_has_error. exact Hr.
-    + intros j ->. eapply Exe.ExecProofs.exec_data_finite; eauto.
-  - left. unfold Exe.ExecModel.run_request. rewrite Hg. destruct VE; cbn [of_run];
-      (eexists _, _; split; [reflexivity|]; split; [intros _; discriminate|intros j Hj; discriminate]).
-  - left. unfold Exe.ExecModel.run_request. rewrite Hg. destruct VE; cbn [of_run];
-      (eexists _, _; split; [reflexivity|]; split; [intros _; discriminate|intros j Hj; discriminate]).
+  intros Hs. apply andb_true_iff in Hs as [Hn Hc]. unfold execute_doc.
+  destruct (ExeA.ArgModel.get_operation (exe_of_syn d) opname) as [o|p|] eqn:Hg.
+  - destruct (ExeA.ArgModel.coerce_request_vars ES o raw) as [vv| |] eqn:Hv.
+    + set (D := ExeA.ArgData.doc_of (exe_of_syn d) o vv). set (E := ExeA.ArgArgs.env_of_vars vv).
+      destruct (ExeA.ArgHyps.doc_positions_okb D) eqn:Hp; cbn [negb].
+      2:{ right; left. eexists; reflexivity. }
+      destruct (ExeA.ArgHyps.dirs_evaluable D E) eqn:He; cbn [negb].
+      2:{ right; right. eexists _, o, vv. auto. }
+      destruct (ExeA.ArgSpec.doc_ok ES D E (ExeA.ArgModel.default_fuel D) (ExeA.ArgModel.default_fuel D)) eqn:Hd; cbn [negb].
+      2:{ right; left. eexists; reflexivity. }
+      destruct (ExeA.ArgProofs.exec_total ES D E (ExeA.ArgModel.default_fuel D) Hn Hp (ExeA.ArgModel.default_fuel D) Hd W)
+        as (data & errs & Hr).
+      left. exists data, errs. rewrite Hr. cbn [of_run]. split; [reflexivity|]. split.
+      * intros ->. eapply run_none_has_error. exact Hr.
+      * intros j ->. eapply ExeA.ArgProofs.exec_data_finite; eauto.
+    + left. unfold ExeA.ArgModel.run_request. rewrite Hg, Hv. cbn [of_run].
+      eexists _, _. split; [reflexivity|]. split; [intros _; discriminate|intros j Hj; discriminate].
+    + exfalso. unfold ExeA.ArgModel.coerce_request_vars in Hv.
+      exact (Val.CoerceTotal.variable_values_no_panic _ _ Hc _ _ _ Hv).
+  - left. unfold ExeA.ArgModel.run_request. rewrite Hg. cbn [of_run].
+    eexists _, _. split; [reflexivity|]. split; [intros _; discriminate|intros j Hj; discriminate].
+  - left. unfold ExeA.ArgModel.run_request. rewrite Hg. cbn [of_run].
+    eexists _, _. split; [reflexivity|]. split; [intros _; discriminate|intros j Hj; discriminate].
 Qed.
 
 (** ** the whole pipeline *)
-Theorem pipeline_never_panics VS F ES bs opname VE W :
-  Exe.ExecHyps.type_names_okb ES = true ->
-  crashed (pipeline_order pi VS F ES bs opname VE W) = false.
+Theorem pipeline_never_panics VS F ES bs opname raw W :
+  schema_accepted ES = true ->
+  crashed (pipeline_order pi VS F ES bs opname raw W) = false.
 Proof.
   intro Hn. unfold pipeline_order.
   destruct (front_cases VS F bs) as [(e & es & t & H & _)|[(d & e & es & H & _)|(d & H & _)]]; rewrite H; try reflexivity.
-  destruct (execute_doc_cases ES d opname VE W Hn) as [(data & errs & Hr & _)|[Hr|[(c & Hr)|(x & o & E & Hr & _)]]];
+  destruct (execute_doc_cases ES d opname raw W Hn) as [(data & errs & Hr & _)|[(c & Hr)|(x & o & vv & Hr & _)]];
     rewrite Hr; reflexivity.
 Qed.
 
 (** the outcomes, classified: a response (with data or errors, serialisable data), a broken stage
     contract, or a request whose @skip/@include conditions have no boolean value *)
-Theorem pipeline_cases VS F ES bs opname VE W :
-  Exe.ExecHyps.type_names_okb ES = true ->
-  let r := pipeline_order pi VS F ES bs opname VE W in
+Theorem pipeline_cases VS F ES bs opname raw W :
+  schema_accepted ES = true ->
+  let r := pipeline_order pi VS F ES bs opname raw W in
   (is_response r = true /\ data_or_errors_p r = true /\ serialisable_p r = true) \/
   contract_broken r = true \/
   (unevaluable r = true /\
-   exists d o E, VE = Some E /\ parse_and_validate_order pi VS F bs = FAccepted d /\
-                 Exe.ExecModel.get_operation (exe_of_syn d) opname = Exe.ExecModel.GOp o /\
-                 Exe.ExecHyps.dirs_evaluable (Exe.ExecData.doc_of (exe_of_syn d) o) E = false).
+   exists d o vv, parse_and_validate_order pi VS F bs = FAccepted d /\
+                  ExeA.ArgModel.get_operation (exe_of_syn d) opname = ExeA.ArgModel.GOp o /\
+                  ExeA.ArgModel.coerce_request_vars ES o raw = Val.Values.Ok vv /\
+                  ExeA.ArgHyps.dirs_evaluable (ExeA.ArgData.doc_of (exe_of_syn d) o vv) (ExeA.ArgArgs.env_of_vars vv) = false).
 Proof.
   intro Hn. unfold pipeline_order.
   destruct (front_cases VS F bs) as [(e & es & t & H & _)|[(d & e & es & H & _)|(d & H & _)]]; rewrite H.
   - left. auto.
   - left. auto.
-  - destruct (execute_doc_cases ES d opname VE W Hn)
-      as [(data & errs & Hr & Hne & Hfin)|[Hr|[(c & Hr)|(x & o & E & Hr & HE & Hg & He)]]]; rewrite Hr.
+  - destruct (execute_doc_cases ES d opname raw W Hn)
+      as [(data & errs & Hr & Hne & Hfin)|[(c & Hr)|(x & o & vv & Hr & Hg & Hv & He)]]; rewrite Hr.
     + left. split; [reflexivity|]. split.
       * destruct data; [reflexivity|]. cbn. destruct errs; [exfalso; apply (Hne eq_refl); reflexivity|reflexivity].
       * destruct data as [j|]; [|reflexivity]. cbn. apply Hfin. reflexivity.
-    + left. auto.
     + right; left. reflexivity.
-    + right; right. split; [reflexivity|]. exists d, o, E. auto.
+    + right; right. split; [reflexivity|]. exists d, o, vv. auto.
 Qed.
 
 (** a response, whenever the conditions are evaluable and no contract check fails *)
-Definition request_evaluable VS F bs opname VE : Prop :=
-  forall d o E, VE = Some E -> parse_and_validate_order pi VS F bs = FAccepted d ->
-                Exe.ExecModel.get_operation (exe_of_syn d) opname = Exe.ExecModel.GOp o ->
-                Exe.ExecHyps.dirs_evaluable (Exe.ExecData.doc_of (exe_of_syn d) o) E = true.
+Definition request_evaluable VS F ES bs opname raw : Prop :=
+  forall d o vv, parse_and_validate_order pi VS F bs = FAccepted d ->
+                 ExeA.ArgModel.get_operation (exe_of_syn d) opname = ExeA.ArgModel.GOp o ->
+                 ExeA.ArgModel.coerce_request_vars ES o raw = Val.Values.Ok vv ->
+                 ExeA.ArgHyps.dirs_evaluable (ExeA.ArgData.doc_of (exe_of_syn d) o vv) (ExeA.ArgArgs.env_of_vars vv) = true.
 
-Theorem pipeline_total VS F ES bs opname VE W :
-  Exe.ExecHyps.type_names_okb ES = true -> request_evaluable VS F bs opname VE ->
-  let r := pipeline_order pi VS F ES bs opname VE W in
+Theorem pipeline_total VS F ES bs opname raw W :
+  schema_accepted ES = true -> request_evaluable VS F ES bs opname raw ->
+  let r := pipeline_order pi VS F ES bs opname raw W in
   is_response r = true \/ contract_broken r = true.
 Proof.
-  intros Hn Hev r. destruct (pipeline_cases VS F ES bs opname VE W Hn) as [(H & _)|[H|(_ & d & o & E & HE & Ha & Hg & He)]].
+  intros Hn Hev r. destruct (pipeline_cases VS F ES bs opname raw W Hn) as [(H & _)|[H|(_ & d & o & vv & Ha & Hg & Hv & He)]].
   - left; exact H.
   - right; exact H.
-  - rewrite (Hev d o E HE Ha Hg) in He. discriminate.
+  - rewrite (Hev d o vv Ha Hg Hv) in He. discriminate.
 Qed.
 
-Theorem pipeline_data_or_errors VS F ES bs opname VE W :
-  Exe.ExecHyps.type_names_okb ES = true ->
-  is_response (pipeline_order pi VS F ES bs opname VE W) = true ->
-  data_or_errors_p (pipeline_order pi VS F ES bs opname VE W) = true.
+Theorem pipeline_data_or_errors VS F ES bs opname raw W :
+  schema_accepted ES = true ->
+  is_response (pipeline_order pi VS F ES bs opname raw W) = true ->
+  data_or_errors_p (pipeline_order pi VS F ES bs opname raw W) = true.
 Proof.
-  intros Hn Hr. destruct (pipeline_cases VS F ES bs opname VE W Hn) as [(_ & H & _)|[H|(H & _)]]; [exact H| |].
-  - destruct (pipeline_order pi VS F ES bs opname VE W); discriminate.
-  - destruct (pipeline_order pi VS F ES bs opname VE W); discriminate.
+  intros Hn Hr. destruct (pipeline_cases VS F ES bs opname raw W Hn) as [(_ & H & _)|[H|(H & _)]]; [exact H| |].
+  - destruct (pipeline_order pi VS F ES bs opname raw W); discriminate.
+  - destruct (pipeline_order pi VS F ES bs opname raw W); discriminate.
 Qed.
 
-Theorem pipeline_serialisable VS F ES bs opname VE W j errs :
-  Exe.ExecHyps.type_names_okb ES = true ->
-  pipeline_order pi VS F ES bs opname VE W = PExecuted (Some j) errs ->
-  Exe.ExecData.json_finite j = true.
+Theorem pipeline_serialisable VS F ES bs opname raw W j errs :
+  schema_accepted ES = true ->
+  pipeline_order pi VS F ES bs opname raw W = PExecuted (Some j) errs ->
+  ExeA.ArgData.json_finite j = true.
 Proof.
-  intros Hn Hr. destruct (pipeline_cases VS F ES bs opname VE W Hn) as [(_ & _ & H)|[H|(H & _)]];
+  intros Hn Hr. destruct (pipeline_cases VS F ES bs opname raw W Hn) as [(_ & _ & H)|[H|(H & _)]];
     rewrite Hr in H; [exact H|discriminate|discriminate].
 Qed.
 
@@ -194,65 +204,70 @@ Qed.
 
 (** C04's half (not proved there yet; stated in the header of Properties/C01.v as
     [validate_ok_doc_ok]): a document the validator accepts satisfies the executor's typing
-    hypothesis, for every operation of it and every variable environment that gives a boolean to
-    every condition.  [VS] and [ES] must describe the same schema. *)
+    hypothesis, for every operation of it and all coerced variables that give a boolean to every
+    condition.  [VS] and [ES] must describe the same schema. *)
 Definition validate_establishes_doc_ok VS F ES : Prop :=
-  forall bs d opname o E,
+  forall bs d opname o vv,
     parse_and_validate_order pi VS F bs = FAccepted d ->
-    Exe.ExecModel.get_operation (exe_of_syn d) opname = Exe.ExecModel.GOp o ->
-    let D := Exe.ExecData.doc_of (exe_of_syn d) o in
-    Exe.ExecHyps.dirs_evaluable D E = true ->
-    Exe.ExecSpec.doc_ok ES D E (Exe.ExecModel.default_fuel D) (Exe.ExecModel.default_fuel D) = true.
+    ExeA.ArgModel.get_operation (exe_of_syn d) opname = ExeA.ArgModel.GOp o ->
+    let D := ExeA.ArgData.doc_of (exe_of_syn d) o vv in
+    let E := ExeA.ArgArgs.env_of_vars vv in
+    ExeA.ArgHyps.dirs_evaluable D E = true ->
+    ExeA.ArgSpec.doc_ok ES D E (ExeA.ArgModel.default_fuel D) (ExeA.ArgModel.default_fuel D) = true.
 
 (** C06's half is proved (Pipe/PositionsProofs.v, from C06_parse_bytes_pos_injective): the selection
     nodes of a parsed text have pairwise distinct positions; what is left of [doc_positions_okb] is
     a bound on the text: the memo key of collectFields stores line and column in 24 + 32 bits *)
 Definition text_positions_small bs : Prop :=
-  forall d es o opname,
+  forall d es o opname vv,
     Syn.FrontEnd.parse_document_bytes bs = Syn.ParserModel.Out (Some d) es ->
-    Exe.ExecModel.get_operation (exe_of_syn d) opname = Exe.ExecModel.GOp o ->
-    forallb Exe.ExecHyps.pos_smallb (Exe.ExecHyps.all_sels (Exe.ExecData.doc_of (exe_of_syn d) o)) = true.
+    ExeA.ArgModel.get_operation (exe_of_syn d) opname = ExeA.ArgModel.GOp o ->
+    forallb ExeA.ArgHyps.pos_smallb (ExeA.ArgHyps.all_sels (ExeA.ArgData.doc_of (exe_of_syn d) o vv)) = true.
 
-Theorem positions_contract_is_size bs d es opname o :
+Theorem positions_contract_is_size bs d es opname o vv :
   Syn.FrontEnd.parse_document_bytes bs = Syn.ParserModel.Out (Some d) es ->
-  Exe.ExecModel.get_operation (exe_of_syn d) opname = Exe.ExecModel.GOp o ->
-  Exe.ExecHyps.doc_positions_okb (Exe.ExecData.doc_of (exe_of_syn d) o)
-  = forallb Exe.ExecHyps.pos_smallb (Exe.ExecHyps.all_sels (Exe.ExecData.doc_of (exe_of_syn d) o)).
+  ExeA.ArgModel.get_operation (exe_of_syn d) opname = ExeA.ArgModel.GOp o ->
+  ExeA.ArgHyps.doc_positions_okb (ExeA.ArgData.doc_of (exe_of_syn d) o vv)
+  = forallb ExeA.ArgHyps.pos_smallb (ExeA.ArgHyps.all_sels (ExeA.ArgData.doc_of (exe_of_syn d) o vv)).
 Proof.
-  intros Hp Hg. unfold Exe.ExecHyps.doc_positions_okb.
-  rewrite (parsed_positions_distinct bs d es opname o Hp Hg). reflexivity.
+  intros Hp Hg. unfold ExeA.ArgHyps.doc_positions_okb.
+  rewrite (parsed_positions_distinct bs d es opname o vv Hp Hg). reflexivity.
 Qed.
 
-Theorem pipeline_response_if_obligations VS F ES bs opname VE W :
-  Exe.ExecHyps.type_names_okb ES = true ->
+Theorem pipeline_response_if_obligations VS F ES bs opname raw W :
+  schema_accepted ES = true ->
   validate_establishes_doc_ok VS F ES -> text_positions_small bs ->
-  request_evaluable VS F bs opname VE ->
-  is_response (pipeline_order pi VS F ES bs opname VE W) = true.
+  request_evaluable VS F ES bs opname raw ->
+  is_response (pipeline_order pi VS F ES bs opname raw W) = true.
 Proof.
-  intros Hn Hv Hp Hev. unfold pipeline_order.
-  destruct (front_cases VS F bs) as [(e & es & t & H & _)|[(d & e & es & H & _)|(d & H & Hparse & _)]]; rewrite H; try reflexivity.
-  unfold execute_doc.
-  destruct (Exe.ExecModel.get_operation (exe_of_syn d) opname) as [o|p|] eqn:Hg.
-  - destruct VE as [E|]; [|reflexivity].
-    assert (Hpos : Exe.ExecHyps.doc_positions_okb (Exe.ExecData.doc_of (exe_of_syn d) o) = true).
-    { rewrite (positions_contract_is_size bs d [] opname o Hparse Hg). exact (Hp d [] o opname Hparse Hg). }
-    rewrite Hpos. cbn [negb].
-    rewrite (Hev d o E eq_refl H Hg). cbn [negb].
-    rewrite (Hv bs d opname o E H Hg (Hev d o E eq_refl H Hg)). cbn [negb].
-    destruct (Exe.ExecProofs.exec_total ES _ E _ Hn Hpos _ (Hv bs d opname o E H Hg (Hev d o E eq_refl H Hg)) W)
-      as (data & errs & Hr).
-    rewrite Hr. reflexivity.
-  - unfold Exe.ExecModel.run_request. rewrite Hg. destruct VE; reflexivity.
-  - unfold Exe.ExecModel.run_request. rewrite Hg. destruct VE; reflexivity.
+  intros Hn Hv Hp Hev.
+  destruct (pipeline_cases VS F ES bs opname raw W Hn) as [(H & _)|[H|(H & d & o & vv & Ha & Hg & Hc & He)]].
+  - exact H.
+  - (* a broken contract: excluded by the two obligations *)
+    exfalso. revert H. unfold pipeline_order.
+    destruct (front_cases VS F bs) as [(e & es & t & H & _)|[(d & e & es & H & _)|(d & H & Hparse & _)]]; rewrite H; try discriminate.
+    unfold execute_doc.
+    destruct (ExeA.ArgModel.get_operation (exe_of_syn d) opname) as [o|p|] eqn:Hg.
+    + destruct (ExeA.ArgModel.coerce_request_vars ES o raw) as [vv| |] eqn:Hc.
+      * assert (Hpos : ExeA.ArgHyps.doc_positions_okb (ExeA.ArgData.doc_of (exe_of_syn d) o vv) = true).
+        { rewrite (positions_contract_is_size bs d [] opname o vv Hparse Hg). exact (Hp d [] o opname vv Hparse Hg). }
+        rewrite Hpos. cbn [negb]. rewrite (Hev d o vv H Hg Hc). cbn [negb].
+        rewrite (Hv bs d opname o vv H Hg (Hev d o vv H Hg Hc)). cbn [negb].
+        destruct (ExeA.ArgModel.run ExeA.ArgModel.fixed ES _ _ _ W); discriminate.
+      * destruct (ExeA.ArgModel.run_request ExeA.ArgModel.fixed ES (exe_of_syn d) opname raw 0 W); discriminate.
+      * discriminate.
+    + destruct (ExeA.ArgModel.run_request ExeA.ArgModel.fixed ES (exe_of_syn d) opname raw 0 W); discriminate.
+    + destruct (ExeA.ArgModel.run_request ExeA.ArgModel.fixed ES (exe_of_syn d) opname raw 0 W); discriminate.
+  - rewrite (Hev d o vv Ha Hg Hc) in He. discriminate.
 Qed.
 
 (** [pipeline_never_panics], spelled out on the outcome *)
-Theorem pipeline_never_panics_cases VS F ES bs opname VE W :
-  Exe.ExecHyps.type_names_okb ES = true ->
-  match pipeline_order pi VS F ES bs opname VE W with PPanic _ | POutOfFuel _ => False | _ => True end.
+Theorem pipeline_never_panics_cases VS F ES bs opname raw W :
+  schema_accepted ES = true ->
+  match pipeline_order pi VS F ES bs opname raw W with PPanic _ | POutOfFuel _ => False | _ => True end.
 Proof.
-  intro Hn. pose proof (pipeline_never_panics VS F ES bs opname VE W Hn) as H.
-  destruct (pipeline_order pi VS F ES bs opname VE W); try exact I; discriminate.
+  intro Hn. pose proof (pipeline_never_panics VS F ES bs opname raw W Hn) as H.
+  destruct (pipeline_order pi VS F ES bs opname raw W); try exact I; discriminate.
 Qed.
 
 End AnyOrder.
@@ -260,11 +275,11 @@ End AnyOrder.
 (** ** the order in which Go ranges over the validator's maps does not matter: the same syntax
     errors, the same accepted document and hence the same response; only the list of validation
     errors of a rejected document may differ (it is non-empty under both orders) *)
-Theorem pipeline_order_independent pi1 pi2 VS F ES bs opname VE W :
+Theorem pipeline_order_independent pi1 pi2 VS F ES bs opname raw W :
   Vld.ProofsCommon.order_ok pi1 -> Vld.ProofsCommon.order_ok pi2 ->
-  pipeline_order pi1 VS F ES bs opname VE W = pipeline_order pi2 VS F ES bs opname VE W \/
-  (exists e1 l1 e2 l2, pipeline_order pi1 VS F ES bs opname VE W = PInvalid e1 l1 /\
-                       pipeline_order pi2 VS F ES bs opname VE W = PInvalid e2 l2).
+  pipeline_order pi1 VS F ES bs opname raw W = pipeline_order pi2 VS F ES bs opname raw W \/
+  (exists e1 l1 e2 l2, pipeline_order pi1 VS F ES bs opname raw W = PInvalid e1 l1 /\
+                       pipeline_order pi2 VS F ES bs opname raw W = PInvalid e2 l2).
 Proof.
   intros H1 H2. unfold pipeline_order, parse_and_validate_order.
   destruct (Syn.FrontEnd.parse_document_bytes bs) as [tree es|]; [|left; reflexivity].
